@@ -168,6 +168,11 @@ pub struct Ctx {
     pub val: Vec<f32>,
     pub iv: Vec<Iv>,
     pub vset: Vec<VarSet>,
+    /// granularity: the value is an integer multiple of 2^quant (i16::MIN: unknown, i16::MAX: the value is zero).
+    /// Inputs >= 0.01 are multiples of 2^-30; +, -, min, max, abs, neg keep the smaller granularity (a correctly
+    /// rounded sum of multiples of q is a multiple of q); products and quotients lose it.  A non-zero value
+    /// with granularity q has magnitude >= q, which bounds divisions by "tiny" differences.
+    pub quant: Vec<i16>,
     /// number of decisions taken before the node came into existence (spec-mode nodes: max over operands)
     pub born: Vec<u32>,
     /// true while the harness (not the code under test) is building terms
@@ -221,6 +226,7 @@ impl Ctx {
             iv: vec![],
             vset: vec![],
             born: vec![],
+            quant: vec![],
             spec_mode: false,
             cons: StdMap::new(),
             vars: vec![],
@@ -321,6 +327,25 @@ impl Ctx {
         }
     }
 
+    pub fn quantof(&self, x: Arg) -> i16 {
+        match x {
+            Arg::K(b) => {
+                let v = f32::from_bits(b);
+                if v == 0.0 {
+                    i16::MAX
+                } else if !v.is_finite() {
+                    i16::MIN
+                } else {
+                    let e = ((b >> 23) & 0xff) as i32;
+                    let m = b & 0x7f_ffff;
+                    let (e, m) = if e == 0 { (-149, m) } else { (e - 150, m | 0x80_0000) };
+                    (e + m.trailing_zeros() as i32) as i16
+                }
+            }
+            Arg::N(i) => self.quant[i as usize],
+        }
+    }
+
     pub fn bornof(&self, x: Arg) -> u32 {
         match x {
             Arg::K(_) => 0,
@@ -332,6 +357,25 @@ impl Ctx {
         let id = self.nodes.len() as u32;
         let born = if self.spec_mode && n.op != Op::Var { self.bornof(n.a).max(self.bornof(n.b)) } else { self.trace.len() as u32 };
         self.born.push(born);
+        let q = match n.op {
+            Op::Var => i16::MIN,
+            Op::Add | Op::Sub | Op::Min | Op::Max => {
+                let (qa, qb) = (self.quantof(n.a), self.quantof(n.b));
+                if qa == i16::MIN || qb == i16::MIN {
+                    i16::MIN
+                } else {
+                    qa.min(qb)
+                }
+            }
+            Op::Abs | Op::Neg => self.quantof(n.a),
+            // scaling by a power of two shifts the granularity (exact in the normal range)
+            Op::Mul => match (n.a, self.quantof(n.b)) {
+                (Arg::K(b), qb) if pow2(b).is_some() && qb != i16::MIN && qb != i16::MAX => qb + pow2(b).unwrap() as i16,
+                _ => i16::MIN,
+            },
+            _ => i16::MIN,
+        };
+        self.quant.push(q);
         self.nodes.push(n);
         self.val.push(v);
         self.iv.push(iv);
@@ -1160,6 +1204,10 @@ pub fn input(name: &str, dom: Dom) -> Sf {
         };
         let id = c.push(Node { op: Op::Var, a: Arg::K(0), b: Arg::K(0) }, v, iv, vs_bit(idx));
         c.vars.push(VarInfo { node: id, name: name.to_string(), dom, lo, hi, zero_ok });
+        // a float of magnitude >= 2^-7 (or zero) is a multiple of 2^-30
+        if matches!(dom, Dom::Energy | Dom::EnergyPos | Dom::EnergySigned | Dom::EnergyLazy | Dom::EnergyR(_, _)) && lo.abs() >= 0.0078125 || (dom == Dom::EnergySigned) {
+            c.quant[id as usize] = -30;
+        }
         let node = Arg::N(id);
         let vs = vs_bit(idx);
         match dom {
@@ -1295,6 +1343,19 @@ fn refine(c: &mut Ctx, cmp: Cmp, a: Arg, b: Arg, side: bool) {
             }
         }
         _ => {}
+    }
+    // a non-zero value with granularity q has magnitude >= q
+    for (x, iv) in [(a, &mut na), (b, &mut nb)] {
+        let q = c.quantof(x);
+        if q != i16::MIN && q != i16::MAX && q > -120 {
+            let g = (2.0f32).powi(q as i32);
+            if iv.lo > 0.0 && iv.lo < g {
+                iv.lo = g;
+            }
+            if iv.hi < 0.0 && iv.hi > -g {
+                iv.hi = -g;
+            }
+        }
     }
     // snap refined input intervals to their domain hole (0, 0.01)
     let snap = |c: &Ctx, x: Arg, mut iv: Iv| -> Iv {
